@@ -1370,6 +1370,21 @@ def stream_ga(ctx, pairs):
                 ctx.broke('correspondence', 'ga:stack', f'{name}: rendered .pyx (max stack pointer, pushes, yields) {got} model {model}')
                 _state.setdefault('seeds', []).append(('pair', inp))
     ctx.dist('ga:highest-stack-pointer:%d' % top)
+    # the stack of before repo commit e44243a (2 * atoms entries): the model with those sizes must stop out of bounds exactly on the
+    # inputs whose observed stack pointer exceeds them, and agree everywhere else
+    lines2, expect = [], []
+    for ln, got, inp in zip(lines, reals, inputs):
+        if len(got) == 1 and got[0][0] == 'ok' and (got[0][1] > 2 * inp['lmol'][0] or len(lines2) < 200):
+            lines2.append('ga 1' + ln[4:])
+            expect.append([('oob',)] if got[0][1] > 2 * inp['lmol'][0] else got)
+    resp2 = core.run_driver('C09', lines2) if ctx.build_ok and lines2 else []
+    for ln, ex, rs in zip(lines2, expect, resp2):
+        ctx.count(('ga-old', ln), nontrivial=True)
+        if parse_ga(rs) != ex:
+            ctx.cov['disagreements_checked'] += 1
+            ctx.broke('correspondence', 'ga:old-stack-size', f'model with the 2*atoms stack: {rs[:100]}, observed stack pointer implies {ex}')
+            break
+        ctx.dist('ga:old-size:' + ('overrun' if ex == [('oob',)] else 'fits'))
     if lines:
         ctx.sample({'stream': 'ga', 'request': lines[0][:300], 'model': resp[0][:200] if resp else None, 'real': str(reals[0])[:200]})
 
